@@ -556,8 +556,27 @@ def http_feed_data(u: U):
                 "an accepted start line is at most max_line_size, an accepted field line at most max_field_size",
                 known=[("F3a", Not(first))], witness={"len": blen(line), "first_line": first})
 
+    def body_obligations(L):
+        # a request emitted in this iteration: its body is delimited by Content-Length / Transfer-Encoding whatever
+        # its method (RFC 9112 6.3) - if it announces a body and gets no payload reader, the body bytes that follow
+        # are parsed as the next request
+        ms = L.get("messages")
+        new = ms.new if isinstance(ms, SList) else []
+        for item in new:
+            m, pl = item
+            if not isinstance(m, _Msg) or not hasattr(m, "method") or m.method == "CONNECT":
+                continue
+            has_len = And(m.cl_text.value > 0) if m.cl_text is not None else False
+            announced = Or(m.chunked, has_len)
+            u.check("C01.body.request_framed_by_headers_not_method", Implies(announced, pl == "STREAMREADER"),
+                    "a request that announces a body (Content-Length > 0 or chunked) is given a payload reader for it, "
+                    "for every method - a bodyless reading of 'HEAD / ... Content-Length: 5' would hand the 5 body bytes "
+                    "to the request parser as the start of the next request",
+                    known=[("F1a", m.method == "HEAD")], witness={"method": m.method})
+
     def at_back(L):
         line_obligations(L)
+        body_obligations(L)
         u.check("C10.variant.http.progress", Or(L["start_pos"] > head["start_pos"], head["pp"] is not None,
                                                 p._payload_parser is not None, L["data_len"] != blen(head["data"])),
                 "every iteration of the message-head loop consumes at least one byte")
@@ -579,6 +598,7 @@ def http_feed_data(u: U):
     L = u.last_locals.get(FN_HP, {})
     messages, upgraded, rest = out.value
     u.cover("C03.http.exit")
+    body_obligations({"messages": messages})
     if not head:
         return
     # ---- exits that leave a partial message head behind
